@@ -757,6 +757,17 @@ OPS = [
     _op("gb_cov_complete", lambda t: t["L"].assign(z=t["L"].a * t["L"].a % 5).groupby("b")[["a", "z"]].cov(), "groupby_agg", unordered=True),
     _op("gb_cov_missing", lambda t: t["L"].groupby("b")[["a", "c"]].cov(), "groupby_agg", unordered=True),
     _op("gb_cov_slice_rev", lambda t: t["L"].assign(z=t["L"].a * t["L"].a % 5).groupby("b")[["z", "a"]].cov(), "groupby_agg", unordered=True),
+    # set_index on an already sorted column with duplicates (equal keys may straddle a partition border): label
+    # selections trust the divisions
+    _op("set_index_sorted_dups_loc", lambda t: t["L"].assign(s=t["L"].a // 2).set_index("s").loc[2:3], "set_index", unordered=True),
+    _op("set_index_sorted_dups_loc_lo", lambda t: t["L"].assign(s=(t["L"].a + 1) // 3).set_index("s").loc[:1], "set_index", unordered=True),
+    # head/tail of a sort that is not "plain" (D107): missing values first, ignore_index
+    _op("sort_na_first_head", lambda t: (lambda x: x.head(3, npartitions=-1) if _dd(x) else x.head(3))(t["L"].sort_values(["c", "a"], na_position="first")), "sort"),
+    _op("sort_na_first_desc_tail", lambda t: t["L"].sort_values(["c", "a"], ascending=False, na_position="first").tail(2), "sort"),
+    _op("sort_ignore_index_head", lambda t: (lambda x: x.head(3, npartitions=-1) if _dd(x) else x.head(3))(t["L"].sort_values("a", ascending=False, ignore_index=True)), "sort",
+        noindex=True),
+    _op("sort_na_first", lambda t: t["L"].sort_values(["c", "a"], na_position="first"), "sort"),
+    _op("sort_na_first_desc", lambda t: t["L"].sort_values(["c", "a"], ascending=False, na_position="first"), "sort"),
     _op("gb_size", lambda t: t["L"].groupby("b").size(), "groupby_agg", unordered=True),
     _op("gb_nunique", lambda t: t["L"].groupby("b").a.nunique(), "groupby_agg", unordered=True),
     _op("gb_str_key", lambda t: t["L"].groupby("k").v.sum(), "groupby_agg", table="T_str", unordered=True),
@@ -982,6 +993,19 @@ def run_case(case):
         if site:
             sig["site"] = site
         return (sig, f"got={e2e.describe(got, 8)!r:.500} want={e2e.describe(want, 8)!r:.500}")
+    if op["family"] in ("sort", "set_index") and hasattr(built, "to_delayed") and getattr(built, "ndim", 0) > 0:
+        # compute() merges everything into ONE partition below a sort before it runs: the partitioned plan that
+        # to_delayed / map_partitions / to_parquet / head(npartitions=-1) see is a different one — compare it as well
+        try:
+            parts = e2e.compute_partitions(built)
+        except Exception as ex:  # noqa: BLE001
+            sig["what"] = "partitioned-plan-raised:" + type(ex).__name__
+            return (sig, f"compute() works but the partitioned plan raised {type(ex).__name__}: {str(ex)[:200]}")
+        nonempty = [x for x in parts if len(x)]
+        cat = pd.concat(nonempty) if nonempty else parts[0]
+        if not e2e.same(cat, want, sort_rows=unordered, drop_index=op["noindex"]):
+            sig["what"] = "partitioned-plan-differs"
+            return (sig, f"compute() equals pandas but the concatenated partitions do not: got={e2e.describe(cat, 8)!r:.400} want={e2e.describe(want, 8)!r:.400}")
     return None
 
 
